@@ -191,6 +191,7 @@ class Typer:
         if h in ('real', 'imag', 'conj', 'abs', 'angle', 'exp', 'cos', 'sin', 'sqrt'):
             a = s.ty(at[1]) if len(at) > 1 else NUM
             return a if a[0] == 'arr' else NUM
+        if h in ('int', 'float') and len(at) == 2: return s.ty(at[1])          # a conversion keeps the quantity
         if h == 'len':
             sp = s.iter_space(s.ty(at[1]))
             return ('size', sp if sp is not None else U('len'))
@@ -205,6 +206,10 @@ class Typer:
             a = s.ty(at[1]); return ('size', a[1][0]) if a[0] == 'arr' and len(a[1]) == 1 else ('size', U('size'))
         if h in ('carried',): return unk('carried')
         if h in ('num', 'pow', 'floor', 'mod', 'sentinel'): return NUM
+        if isinstance(h, str) and h in ('flatnonzero', 'nonzero', 'where', 'any', 'all', 'diag', 'isnan', 'isfinite', 'logical_not', 'hstack', 'vstack', 'concatenate'):
+            # the same function in its atom spelling (its first argument was a plain term): keyword pairs become keyword operands
+            ops = [('opq', 'kw', x[0], x[1]) if isinstance(x, tuple) and len(x) == 2 and isinstance(x[0], str) and x[0] in ('axis', 'k', 'dtype') else x for x in at[1:]]
+            return s.opq(('opq', 'np.' + h) + tuple(ops))
         # an uninterpreted numpy function applied to terms: its arguments are typed all the same (their obligations count)
         inner = [s.ty(x) for x in at[1:] if isinstance(x, tuple)]
         if h in ('ravel', 'squeeze', 'flatten') and inner and inner[0][0] == 'arr':
